@@ -373,7 +373,16 @@ class Feeder:
 
     def fire(self, a):
         owner = a.info.split()[1]
-        self.q.pipe.append(self.q.bufs[owner].pop(0))
+        item = self.q.bufs[owner].pop(0)
+        # the real feeder thread pickles the object only now: what the receiver gets is a snapshot taken at this moment (changes
+        # the putter made to a mutable object after `put()` are in it, later ones are not)
+        if isinstance(item, (list, dict, set, bytearray)):
+            import copy
+            try:
+                item = copy.deepcopy(item)
+            except Exception:
+                pass
+        self.q.pipe.append(item)
 
 
 class Queue:
@@ -552,6 +561,9 @@ class SoftFileLock:
         self.sim = _SIM
         self.path = path
         self.timeout = timeout
+        # filelock >= 3.24: an age-based lease.  A lock file older than `lifetime` seconds is broken by a waiter even while its
+        # holder is alive; how long a holder stays inside is up to the scheduler, so with a lifetime a waiter may always take over
+        self.lifetime = kw.get("lifetime")
         self.mine = False
 
     def __enter__(self):
@@ -561,13 +573,21 @@ class SoftFileLock:
         def en():
             if not os.path.exists(self.path):
                 return [Action(me, "lock", short(self.path))]
+            acts = []
+            if self.lifetime is not None:
+                acts.append(Action(me, "lock-expired", short(self.path), progress=False))
             if self.timeout is not None and self.timeout >= 0:
-                return [Action(me, "lock-timeout", short(self.path), progress=False)]
-            return []
+                acts.append(Action(me, "lock-timeout", short(self.path), progress=False))
+            return acts
         a = self.sim.point(en)
         if a.kind == "lock-timeout":
             import filelock
             raise filelock.Timeout(self.path)
+        if a.kind == "lock-expired":
+            try:
+                os.unlink(self.path)
+            except OSError:
+                pass
         fd = os.open(self.path, os.O_WRONLY | os.O_CREAT | os.O_EXCL | os.O_TRUNC)
         os.close(fd)
         self.mine = True
